@@ -665,6 +665,28 @@ fn check_short_circuit(e: &Exec, out: &mut Vec<Violation>, _inc: &mut Vec<String
             post.entry(k.slot).or_default().insert(k.id >> 12);
         }
     }
+    // Min/Auto: chunk sizes may grow with the progress made so far, never with what remains: the work after the
+    // match is bounded in terms of the work before it (inputs of this profile leave >= 40x that much input)
+    if !matches!(c.cs, Cs::Exact(_)) {
+        let pre: HashSet<u64> = e.calls().iter().filter(|k| k.seq < m.seq).map(|k| k.id >> 12).collect();
+        let post_total: usize = post.values().map(|s| s.len()).sum();
+        let workers = chunk_of.len().max(1);
+        let c0 = e.runs.first().map(|r| r.chunk_size).unwrap_or(1).max(1);
+        let allowed = 8 * (pre.len() + workers * c0);
+        if post_total > allowed {
+            out.push(v(
+                "C10",
+                "post-match-work-scales-with-input",
+                format!(
+                    "after the first match was known the other threads still evaluated {} source positions; {} positions had been evaluated before the match ({} workers, initial chunk {}): work after a match grows with the remaining input",
+                    post_total,
+                    pre.len(),
+                    workers,
+                    c0
+                ),
+            ));
+        }
+    }
     for (slot, origins) in post {
         let chunk = chunk_of.get(&slot).copied().unwrap_or(1).max(1);
         if origins.len() as u64 > 2 * chunk {
